@@ -1,14 +1,18 @@
 (* C08 — Client-visible outcome of Apply/Barrier is exact (at most once, ordered).
    Statements only; proofs in Proofs/LeaderProofs.v.  Leader-side model: Model/Leader.v, tied to
    the code by the leader-sequence correspondence (component 8, incl. a batching FSM).
-   PARTIAL: "reached every FSM exactly once" across servers and "never stored on any server" for
-   the definite failures need the global theorems (C02/C03); they are checked on real histories
+   CLUSTER LEVEL (end of file): a future answered without error means the entry is committed at
+   exactly that index on the answering leader (C08_acknowledged_means_committed_there), and by
+   C03_acknowledged_entries_are_permanent / C02_state_machine_safety_all_runs it stays the entry of
+   that index on every later leader and on every server that learns the index committed.
+   PARTIAL: "never stored on any server" for the definite failures and exactly-once across restarts
+   with snapshots are checked on real histories
    (monitors applied-more-than-once, applied-at-another-index, definitely-failed-command-stored,
    barrier-returned-before-earlier-entry-applied, index-not-above-earlier-acks). *)
 From Coq Require Import List NArith.
 From stdpp Require Import gmap.
-From RaftModel Require Import Base Config Commitment Node Leader.
-From RaftProofs Require Import LeaderProofs.
+From RaftModel Require Import Base Config Commitment Node NodeCodec Leader Cluster ClusterLog ClusterCommit.
+From RaftProofs Require Import LeaderProofs ClusterCommitSpec ClusterCommitAcks2.
 Open Scope N_scope.
 
 (* whatever mix of commands, barriers and configurations a batch holds and whichever carry a
@@ -41,3 +45,15 @@ Example C08_nontrivial :
   apply_batch [(mkE 5 2 0 501, Some 11); (mkE 6 2 4 0, Some 12); (mkE 7 2 5 9000, None); (mkE 8 2 0 502, Some 13)]
   = [mkFR 11 5 0 (resp_of 501); mkFR 12 6 0 0; mkFR 13 8 0 (resp_of 502)].
 Proof. vm_compute. reflexivity. Qed.
+
+
+(* CLUSTER LEVEL (Model/ClusterCommit.v): whenever a step of any run answers a future without error,
+   the answering server is the Leader of the term recorded, the entry is in its log at its index, and
+   that index is at or below its commit index - "committed at exactly the returned index". *)
+Theorem C08_acknowledged_means_committed_there : forall cfg g0 ls g l g' T e,
+  cinit_ok cfg g0 -> Forall label_ok ls -> crun false [cfg] g0 ls = Some g ->
+  cstep false [cfg] g l = Some g' -> In (T, e) (step_acks g l) ->
+  exists i n' s', l = CCommit i /\ find_node (cnodes g') i = Some n' /\ gn_run n' = Up s' /\
+    v_role s' = Leader /\ v_term s' = T /\ e_idx e <= v_commit s' /\ d_log s' !! e_idx e = Some e.
+Proof. exact acks_are_committed_when_answered. Qed.
+Print Assumptions C08_acknowledged_means_committed_there.
